@@ -210,3 +210,7 @@ package db
 //@   ghost update @RemoveFiles: removedOld = (result == nil)
 //@   assert @os.Rename: [installs-given-file] validOK && closedOld && removedOld && arg0 == path
 //@   ensures [invalid-rejected] !validOK ==> result != nil
+//
+//@ func OpenSwappable
+//@   assigns *, optHas, optVal, handleOpen, handleDSN, onceDone
+//@   ensures [usable] result1 == nil ==> result0 != nil
